@@ -253,4 +253,18 @@ CHECKS = {
             dict(name="free", run="^TestFreeRunning$", thorough=300, shards=2, race=True, tiers=("thorough",), env={"VERIF_LEG_SUFFIX": "-race"}),
         ],
     ),
+    "C09": dict(
+        pkg="c09", level="exploration",
+        rule=("pure leg (verif hook: toOSPath/fromOSPath with explicit GOOS and separator): root = 0..3 Sub calls over {tmp, root, rootx, a, tmp/root, a/b}; volume from {'', C:, D:, \\\\host\\share} under the windows convention; both (linux,'/') and (windows,'\\'); "
+              "names valid (depth 1..3), odd-valid (backslash, colon, '.') and invalid; OS-path candidates assembled from the root or a look-alike of it (rootx), its parent, other volumes, then 0..4 elements from {a,b,root,x.y,.,..,''} with optional trailing separator. "
+              "Oracle: (1) a valid name maps to volume+sep+elements of root and name joined by sep (computed by splitting), an invalid one to ErrInvalid; (2) FromOSPath(ToOSPath(n)) == n; (3) for an absolute candidate FromOSPath fails with ErrInvalid or returns a valid FS path r with "
+              "ToOSPath(r) equal to the lexically cleaned candidate, which lies inside the root (a small Windows volume parser in the harness plays filepath.VolumeName). live leg: the exported ToOSPath/FromOSPath on this host: relative paths refused, same reverse/round-trip oracle. "
+              "thorough adds native fuzzing over (convention, sub, volume, name, candidate). non-trivial = an unclean candidate (.., empty element, trailing separator) or a valid name under >=1 Sub root"),
+        assumptions=["the relative-path guard lives in the exported wrapper (filepath.IsAbs of the host), so relative candidates are only checked in the live leg", "errors coming back from the OS naming the caller's path are covered by C05's os.FS subjects under 1-3 Sub roots"],
+        legs=[
+            dict(name="pure", run="^TestPure$", quick=5000, thorough=50000, shards=8),
+            dict(name="live", run="^TestLive$", quick=1000, thorough=10000, shards=2),
+            dict(name="fuzzpaths", run="^$", fuzz="^FuzzPaths$", fuzztime="45s", tiers=("thorough",), timeout_thorough=240),
+        ],
+    ),
 }
